@@ -25,6 +25,7 @@ class Gen:
         self.cplx_frac = cplx_frac
         self.concat_equal = False
         self.sparse_sorted = False
+        self.mix_excl = set()   # kinds not generated inside mixed real/complex trees (regions of recorded findings)
 
     def val(self, dt):
         r = self.rnd
@@ -45,6 +46,8 @@ class Gen:
     def leaf(self, shape, cplx):
         r = self.rnd
         m, n = shape
+        if cplx == "mix":
+            cplx = r.random() < 0.5
         dt = self.dt(cplx)
         opts = ["Dense", "Dense", "Dense"]
         if "Tri" in self.kinds and m == n:
@@ -100,15 +103,15 @@ class Gen:
         m, n = shape
         if depth <= 0 or r.random() < 0.15:
             return self.leaf(shape, cplx)
-        opts = [k for k in ("Sum", "Prod", "Transp", "Adj", "Sliced", "Concat") if k in self.kinds]
+        opts = [k for k in ("Sum", "Prod", "Transp", "Adj", "Sliced", "Concat") if k in self.kinds and not (cplx == "mix" and k in self.mix_excl)]
         if free:
             opts += [k for k in ("Kron", "BDiag", "Kron", "BDiag") if k in self.kinds]
-            if "KronSum" in self.kinds:
+            if "KronSum" in self.kinds and not (cplx == "mix" and "KronSum" in self.mix_excl):
                 opts.append("KronSum")
         if not free:   # structured kinds that fit a prescribed shape
             if "Kron" in self.kinds and (m > 1 or n > 1):
                 opts.append("KronFit")
-            if "KronSum" in self.kinds and m == n and m > 1 and any(m % a == 0 for a in range(2, m)):
+            if "KronSum" in self.kinds and not (cplx == "mix" and "KronSum" in self.mix_excl) and m == n and m > 1 and any(m % a == 0 for a in range(2, m)):
                 opts.append("KronSumFit")
             if "BDiag" in self.kinds and m > 1 and n > 1:
                 opts.append("BDiagFit")
@@ -163,6 +166,95 @@ class Gen:
                 left -= h
             return dict(k="Concat", axis=0, ms=[self.tree(d, (h, n), cplx) for h in parts])
         raise AssertionError(k)
+
+
+SQUARE_ONLY = ("Diag", "Ident", "Scal", "Perm", "Tridiag", "House", "KronSum")
+
+
+def rooted(gen, kind, m=None, n=None, cplx=False, depth=1):
+    """a tree whose ROOT has the given kind; m / n prescribe rows / columns when not None. Returns None if impossible."""
+    r = gen.rnd
+    free_shape = m is None and n is None
+    if kind in SQUARE_ONLY:
+        if m is not None and n is not None and m != n:
+            return None
+        m = n = (m if m is not None else (n if n is not None else r.randint(1, 3)))
+    else:
+        m = m if m is not None else r.randint(1, 3)
+        n = n if n is not None else r.randint(1, 3)
+    c = (r.random() < 0.5) if cplx == "mix" else cplx
+    dt = gen.dt(c)
+    d = depth - 1
+    if kind == "Dense":
+        return dict(k="Dense", dt=dt, a=[[gen.val(dt) for _ in range(n)] for _ in range(m)])
+    if kind == "Tri":
+        if m != n:
+            return None
+        lower = r.random() < 0.5
+        return dict(k="Tri", dt=dt, lower=lower, a=[[gen.val(dt) if ((j <= i) if lower else (j >= i)) else [0, 0] for j in range(n)] for i in range(m)])
+    if kind == "Sparse":
+        q = min(m, n)
+        pos = sorted(zip(r.sample(range(m), q), r.sample(range(n), q)))[:r.randint(0, q)] if gen.sparse_sorted else \
+            r.sample([(i, j) for i in range(m) for j in range(n)], r.randint(0, min(5, m * n)))
+        return dict(k="Sparse", dt=dt, m=m, n=n, ent=[[i, j, gen.val(dt)] for i, j in pos])
+    if kind == "Diag":
+        return dict(k="Diag", dt=dt, d=[gen.val(dt) for _ in range(m)])
+    if kind == "Ident":
+        return dict(k="Ident", dt=dt, n=m)
+    if kind == "Scal":
+        return dict(k="Scal", dt=dt, c=gen.val(dt), n=m)
+    if kind == "Perm":
+        p = list(range(m))
+        r.shuffle(p)
+        return dict(k="Perm", dt=dt, p=p)
+    if kind == "Tridiag":
+        return dict(k="Tridiag", dt=dt, al=[gen.val(dt) for _ in range(m - 1)], be=[gen.val(dt) for _ in range(m)], ga=[gen.val(dt) for _ in range(m - 1)])
+    if kind == "House":
+        return dict(k="House", dt=dt, v=[gen.val(dt) for _ in range(m)], beta=gen.val(dt))
+    if kind == "Sum":
+        return dict(k="Sum", ms=[gen.tree(d, (m, n), cplx) for _ in range(r.randint(2, 3))])
+    if kind == "Prod":
+        ks = [m] + [gen.dim() for _ in range(r.randint(1, 2))] + [n]
+        return dict(k="Prod", ms=[gen.tree(d, (ks[i], ks[i + 1]), cplx) for i in range(len(ks) - 1)])
+    if kind in ("Transp", "Adj"):
+        return dict(k=kind, a=gen.tree(d, (n, m), cplx))
+    if kind == "Kron":
+        nf = r.randint(2, 3)
+        fm, fn = [], []
+        mm, nn = m, n
+        for i in range(nf - 1):
+            a = r.choice([x for x in range(1, mm + 1) if mm % x == 0])
+            b = r.choice([x for x in range(1, nn + 1) if nn % x == 0])
+            fm.append(a); fn.append(b); mm //= a; nn //= b
+        fm.append(mm); fn.append(nn)
+        return dict(k="Kron", ms=[gen.tree(d, (a, b), cplx) for a, b in zip(fm, fn)])
+    if kind == "KronSum":
+        divs = [x for x in range(1, m + 1) if m % x == 0]
+        a = r.choice(divs)
+        return dict(k="KronSum", ms=[gen.tree(d, (a, a), cplx), gen.tree(d, (m // a, m // a), cplx)])
+    if kind == "BDiag" and free_shape:   # free shape: choose the blocks first, multiplicities mostly > 1
+        nb = r.randint(1, 2)
+        return dict(k="BDiag", ms=[gen.tree(d, (r.randint(1, 2), r.randint(1, 2)), cplx) for _ in range(nb)], mu=[r.choice([1, 2, 2, 3]) for _ in range(nb)])
+    if kind == "BDiag":
+        mu = r.choice([x for x in (1, 2, 3) if m % x == 0 and n % x == 0])
+        bm, bn = m // mu, n // mu
+        if bm >= 2 and bn >= 2 and r.random() < 0.5:
+            m1, n1 = r.randint(1, bm - 1), r.randint(1, bn - 1)
+            return dict(k="BDiag", ms=[gen.tree(d, (m1, n1), cplx), gen.tree(d, (bm - m1, bn - n1), cplx)], mu=[mu, mu])
+        return dict(k="BDiag", ms=[gen.tree(d, (bm, bn), cplx)], mu=[mu])
+    if kind == "Sliced":
+        M, N = m + r.randint(0, 2), n + r.randint(0, 2)
+        st, sn = r.randint(0, M - m), r.randint(0, N - n)
+        rs, cs = list(range(st, st + m)), list(range(sn, sn + n))
+        if r.random() < 0.3:
+            rs.reverse()
+        return dict(k="Sliced", a=gen.tree(d, (M, N), cplx), rs=rs, cs=cs)
+    if kind == "Concat":
+        hs = [h for h in range(1, m + 1) if m % h == 0] if gen.concat_equal else list(range(1, m + 1))
+        h = r.choice(hs)
+        parts = [h] * (m // h) if gen.concat_equal else ([h, m - h] if m - h > 0 else [h])
+        return dict(k="Concat", axis=0, ms=[gen.tree(d, (p_, n), cplx) for p_ in parts])
+    raise AssertionError(kind)
 
 
 def shape(t):
